@@ -1,10 +1,60 @@
 TECH = "bounded model checking of the real code with Kani/CBMC (SAT): symbolic inputs, property as assertion, counterexample replayed natively"
 META = {
+ "C01": dict(
+    text="Totality decided by the solver per payload type: each of the 19 ADS-B / Comm-B payload readers (plus the two Comm-B-gated hypotheses) is run on ALL 2^56 payload contents through the entry point its caller uses; every Rust-level abort (panic, arithmetic overflow with the release profile's overflow checks, out-of-bounds index, failed unwrap) and every loop bound is a CBMC assertion. Frames shorter than their downlink format prescribes are rejected for every first byte. Thorough tier: whole frames through Message::try_from for DF 0/4/5/11/16/17 (11 type-code bytes)/18/19/24 with the discriminating bytes concrete, Display of every accepted ADS-B payload, too-long frames, determinism (DF11).",
+    design_ref="DESIGN.md 3/C01, 7.2",
+    note="Trusted: Kani/CBMC; the bitvec-free deku reader model (validated natively against real deku on every run); tracing/regex/once_cell cfg(kani) forks; fmt/libm stubs. Whole-frame DF20/DF21 (did not finish in 2 h) and Debug rendering are outside; the quick tier decides the payload readers and the length discipline only.",
+    technique=TECH),
+ "C02": dict(
+    text="Solver verdicts over all frames: CRC_TABLE equals the bit-serial remainder for all 256 indices; one table step equals 8 bit-serial steps for every remainder and byte (inductive step for any length); modes_checksum equals the remainder modulo 0x1FFF409 for ALL 2^112 and 2^56 frames; linearity; every 1-bit, 2-bit and <=24-bit burst error pattern has a non-zero syndrome; payload||crc^address always yields the address; the AP field reader reports the crc context. Thorough: the DF17 acceptance gate (accepted iff remainder zero) and address recovery through Message::try_from for DF 0/4/5/16, end-to-end corruption of valid DF17 frames.",
+    design_ref="DESIGN.md 3/C02, 7.2",
+    note="Trusted: Kani/CBMC; deku model; oracle = bit-serial GF(2) division written from Annex 10. The DF17 gate and whole-frame address recovery are thorough-tier (50 min each); whole-frame DF20/DF21 is outside (composition argument stated in DESIGN 7.2).",
+    technique=TECH + "; differential against a bit-serial reference"),
+ "C03": dict(
+    text="For every payload type the decoder's fields are compared with the value the standard assigns to the code found at the standard's bit positions, over ALL 2^56 payloads (every code of every field simultaneously): BDS 0,9 velocity components / track / ground speed (atan2 and hypot replaced by ghost-state contract stubs so that argument order, sign, scale and wrap are inside the check), airspeed, heading, vertical rate, GNSS-baro; BDS 0,6 movement table and track; BDS 0,5 counts; BDS 6,2 / 4,0 selected altitude, QNH, heading; BDS 5,0 / 6,0; the 24-bit address. Thorough: all 64^8 call signs (BDS 0,8 / 2,0).",
+    design_ref="DESIGN.md 3/C03",
+    note="Trusted: Kani/CBMC; deku model; field positions and scale factors written from DO-260B / Annex 10 in harness/src/c03.rs. Comm-B registers are compared only when their plausibility filters accept the payload. Altitude/squawk values are C13; the DF20 'BDS05 only if alt == AC' gate is outside (whole-frame DF20 infeasible).",
+    technique=TECH + "; oracle from the standard, ghost-state stubs for libm"),
+ "C04": dict(
+    text="Integer cell model of the CPR encoder as oracle (no floating-point encoder in the loop): for every pair of extended latitude counts whose cells share a latitude in [-90, 90] the decoder returns the centre of the later report's cell (1e-9 deg) or nothing, and nothing only when the two cells are in different NL bands of the closed formula; same for longitude at one latitude per NL band where tractable; any pair of reports gives latitude in [-90, 90] and longitude in [-180, 180); same-parity pairs give nothing; the decoder's NL table equals the closed formula at every even cell latitude.",
+    design_ref="DESIGN.md 3/C04, 7.2",
+    note="Trusted: Kani/CBMC IEEE-754 bit-blasting; deku model; NL transition latitudes from the closed formula (tools/gen.py). Longitude EXACTNESS is decided only for bands whose zone count is a power of two (and NL = 30 even-last): the decoder's f64 division by the zone count makes the other bands intractable — stated hole (DESIGN 7.2). Quick tier: 3 of 60 latitude-zone harnesses, 6 longitude instances, the range / NL-table / same-parity harnesses.",
+    technique=TECH + "; integer cell oracle, IEEE-754 bit-precise"),
+ "C05": dict(
+    text="Stays-near clause for ALL finite f64 references (every bit pattern), all counts, both parities, airborne and surface: no panic, result absent or with latitude in [-90, 90] and within half a zone of the reference in both coordinates. Exactness: every true latitude cell with every reference within 0.95 of half a zone decodes to the cell centre (airborne and surface, both parities); longitude exactness per NL band at a representative latitude where tractable.",
+    design_ref="DESIGN.md 3/C05, 7.2",
+    note="Trusted: as C04. The 180 NM / 45 NM disc is replaced by the +-0.95 half-zone box it is contained in (geometric fact about the NL table, assumed).",
+    technique=TECH + "; integer cell oracle, IEEE-754 bit-precise"),
+ "C07": dict(
+    text="Every accepted payload of every type (all 2^56 contents: every subtype / version / reserved shape) is serialised by the REAL serde machinery (derive output, FlatMapSerializer, TaggedSerializer) into a structure-recording serializer: Ok, no duplicate key per JSON object, no non-finite number, no control character. Records constructed with symbolic header fields show df = downlink format and icao24 fed from the address the frame carries (value capture), and ICAO/IcaoParity serialise as six lowercase hex digits for all 2^24 addresses through the REAL formatter; a timed record keeps the frame as lowercase hex.",
+    design_ref="DESIGN.md 3/C07, 7.2",
+    note="Trusted: Kani/CBMC; deku model; the recording serializer (validated natively against serde_json on every run); libm stubs. serde_json's digit generation/escaping is outside. Top-level records are constructed from public fields (superset of decodable records).",
+    technique=TECH + "; real serde derive code run into a recording Serializer"),
+ "C08": dict(
+    text="Range assertions on every accepted payload over ALL 2^56 contents per type: angles in [0, 360) (BDS 0,6 / 0,9 / 4,4 / 5,0 / 6,0 / 6,2), roll, CPR counts < 2^17, vertical rates on their 64 / 32 ft/min grids within span, speeds finite and non-negative, Mach in (0, 1], squawk octal, humidity, temperatures, call-sign alphabet; every float field finite.",
+    design_ref="DESIGN.md 3/C08",
+    note="Trusted: Kani/CBMC; deku model; libm::atan2 by contract (range, sign, quadrant, octant, zero iff y = 0 and x >= 0, magnitude floor 2^-12) so that the wrap of BDS 0,9 track is decided for every angle libm can return; hypot by contract.",
+    technique=TECH),
+ "C11": dict(
+    text="For each address-carrying downlink format a record with symbolic address fields is filtered by the real Filters::is_in (filters.rs included unchanged) under every configuration class (filter absent / empty / one / two entries; labels over all formats; arbitrary 24-bit addresses): kept iff both filters accept the displayed df and the displayed address. Undecoded records are never kept.",
+    design_ref="DESIGN.md 3/C11, 7.2",
+    note="Trusted: Kani/CBMC. Records are constructed from public fields with the decode invariant ap == crc (decided under C02); that the JSON shows the same fields is C07. Filter lists longer than 2 outside.",
+    technique=TECH),
  "C13": dict(
     text="Solver verdict over ALL 2^13 / 2^12 / 2^16 codes (and all pairs for injectivity / Gray adjacency): the compiled decode_id13, gray2alt, AC13Field::read and decode_ac12 are compared with an independently written Annex-10 Gillham/25-ft reference. Exhaustive in the solver sense within the field widths; unwinding assertions on.",
     design_ref="DESIGN.md 3/C13",
     note="Trusted: Kani/CBMC/CaDiCaL; the bitvec-free deku reader model (validated natively against real deku); oracle written from Annex 10 in harness/src/refs.rs. Metric altitudes (M=1) outside.",
     technique=TECH + "; differential against an independent reference decoder/encoder"),
+ "C14": dict(
+    text="PARTIAL (three closed-form schemes): n_reg, ja_reg, hl_reg on ALL 2^32 arguments: no panic; ja_reg has a left inverse (independent parser recovers the address from the real string), hence is injective; the three schemes never answer for the same address; an answer implies the address lies in that country's first-matching block of patterns.json (table regenerated from /repo on every run).",
+    design_ref="DESIGN.md 3/C14",
+    note="Trusted: Kani/CBMC; format! stubbed for n_reg/hl_reg. Outside: numeric_reg, stride_reg (Lazy tables: no answer in 30 min), tail() as a whole, injectivity of the N / HL strings, aircraft_information's regex/serde_json lookup.",
+    technique=TECH),
+ "C15": dict(
+    text="Flarm::from_record with the REAL cipher on every 26-byte packet, every timestamp and every f64 reference bit pattern (NaN / inf included): a record or an error, no panic; finite numbers; track in [0, 360). Other packet lengths with arbitrary content. Field harnesses: every 160-bit plaintext block decodes to the packer's address / kind / type / flags / GPS / altitude slices; latitude and longitude reconstruction within one quantisation step for every reference on the globe and every true position in the decodable window. Thorough: real decryption equals textbook XXTEA word by word (kissat).",
+    design_ref="DESIGN.md 3/C15, 7.2",
+    note="Trusted: Kani/CBMC; deku model; atan2 contract stub; in the field harnesses the private btea is stubbed to the identity under Kani (natively the plaintext is encrypted by an independent XXTEA encryptor and decrypted by the real code).",
+    technique=TECH + "; differential against an independent packer / XXTEA"),
  "C17": dict(
     text="Inductive step decided by the solver: from ANY UI state satisfying the selection invariant (table sizes 0..=3, all flag values) one arbitrary event (every KeyCode variant, any char, Tick of any width, Error) through the real update()/next()/previous()/home() sliced verbatim from main.rs: no panic, invariant preserved, quit/search/sort/width flags change only as documented. Plus the initial state and all 4-event histories from it.",
     design_ref="DESIGN.md 3/C17",
@@ -16,7 +66,7 @@ META = {
     note="Trusted: Kani/CBMC/CaDiCaL. Oracle side uses fresh quotient variables with the division lemma. Unix times >= 2^34 s outside the bound.",
     technique=TECH),
 }
-REGISTERED = ["C13", "C17", "C18"]
+REGISTERED = ["C02", "C03", "C11", "C13", "C14", "C17", "C18"]
 NOTES = "See DESIGN.md. Every check is `bin/check <ID> --tier quick|thorough`; exit 2 means undecided (cap hit, vacuity witness missed, or a counterexample that does not reproduce natively) and is never reported as success."
 NOT_APPLICABLE = [
  dict(property_id="C06", reason="smallest useful instance (two reports through the real decode_position with its BTreeMap state) exhausts 24-42 GB in CBMC's propositional reduction in three reductions; state is private and the logic inline, no smaller real unit exists (DESIGN 3/C06)"),
